@@ -73,6 +73,10 @@ def gen_jobs(ctx, n, gen_ev):
         p["end"] = dt * (nsamp + rng.uniform(0.2, 0.8))
         p["sampling_interval"] = dt
         p["first_sample_zero"] = rng.random() < 0.5 if spec["kind"] == "spheres" else False
+        if spec["kind"] == "spheres" and i % 5 == 3:
+            # samples written by the multi-process mediator (sampling out-states may be computed ahead of time there)
+            p["mediator"] = "multi_process_mediator"
+            p["cores"] = rng.choice([3, 4, 8])
         jobs.append({"spec": spec, "props": list(PROPS), "seed": ctx.seed * 1000 + i, "max_events": gen_ev,
                      "label": f"gen-{spec['family']}-{i}"})
     return jobs
